@@ -774,7 +774,11 @@ class ZFilter(meta(LinearFilter, metaclass=ZFilterMeta)):
                      self.denpoly * other.numpoly)
     if isinstance(other, LinearFilter):
       raise ValueError("Filter equations have different domains")
-    return self * operator.truediv(1, other)
+    # A true division of each coefficient: multiplying by the reciprocal
+    # rounds twice (c * (1 / c) isn't always 1)
+    if not isinstance(other, Iterable) and other == 0:
+      raise ZeroDivisionError("Filter division by zero")
+    return ZFilter(self.numpoly / other, self.denpoly)
 
   def __pow__(self, other):
     if (other < 0) and (len(self.numpoly) >= 2 or len(self.denpoly) >= 2):
